@@ -192,7 +192,7 @@ pub fn run() -> i32 {
     let seed = ctx.seed;
     let maxlen = ctx.tier.pick(300usize, 1100);
     let sds = seeds(seed);
-    ctx.rule = format!("positive product: {} seeds (value alphabet + RFC 8032 test seeds) x every message length 0..={} (+1023,1024,1025,4096 thorough) x 4 content classes x {{pure detached, pure combined, pre-hashed incremental}} x {{classic, SigningKeyPair, IncrementalSigner}}: bytes == libsodium, deterministic, verifies everywhere. negative single-fault enumeration on base signatures (3 seeds x lengths {{0,1,32,65}} x pure/pre-hashed): every bit of message, signature and public key; S+kL for every k with S+kL < 2^256; raw S in {{L-1,L,L+1,2^252,2^256-1}}; R x A over the complete small-order encoding table (14 x 14) x S in {{0,1,r}}; non-canonical y in [p,p+18] as R and as A; mode cross-overs; combined form truncated to every length < 64; accept/reject must equal libsodium and be reject for every mutation; non-trivial = case executed in both implementations", sds.len(), maxlen);
+    ctx.rule = format!("positive product: {} seeds (value alphabet + RFC 8032 test seeds) x every message length 0..={} (+1023,1024,1025,4096 thorough) x 4 content classes x {{pure detached, pure combined, pre-hashed incremental}} x {{classic, SigningKeyPair, IncrementalSigner}}: bytes == libsodium, deterministic, verifies everywhere. negative single-fault enumeration on base signatures (3 seeds x lengths {{0,1,32,65}} x pure/pre-hashed): every bit of message, signature and public key; S+kL for every k with S+kL < 2^256; raw S in {{L-1,L,L+1,2^252,2^256-1}}; R x A over the complete small-order encoding table (14 x 14) x S in {{0,1,r}}; non-canonical y in [p,p+18] as R and as A; mode cross-overs (signature of the other mode over M, and over SHA-512(M) / of SHA-512(M)); combined form truncated to every length < 64; accept/reject must equal libsodium and be reject for every mutation; non-trivial = case executed in both implementations", sds.len(), maxlen);
     ctx.assume("libsodium 1.0.18 (strict, non-COMPAT) is the reference verifier");
     ctx.assume("reference 2: pure-Python RFC 8032 signing (pure and pre-hashed) and strict verification over a dumped sub-corpus (ref/curve_check.py), run by bin/check after this binary");
 
@@ -335,6 +335,21 @@ pub fn run() -> i32 {
             st.eval(&(si, li, ph, "cross"), true, &oc);
             if let Some(what) = f {
                 st.fail(Fail { check: "C06.ed25519".into(), signature: format!("C06/verify/{}/mode-cross-over", oc), what, case: json!({"kind": "verify", "what": "mode-cross-over", "ph": !ph, "sig": hx(&sig), "msg": hx(&m), "pk": hx(&pk), "must_reject": true}) });
+            }
+        }
+        // digest cross-overs: a pure signature over SHA-512(M) presented to the pre-hashed verifier
+        // for M, and a pre-hashed signature for M presented to the pure verifier for SHA-512(M)
+        {
+            let digest = sodium::sha512(&m);
+            let (kind, sig2, vm, vph): (&str, Sig, Vec<u8>, bool) = if !ph {
+                ("pure-signature-over-digest->prehashed-verify", sodium::sign_detached(&digest, &sk), m.clone(), true)
+            } else {
+                ("prehashed-signature->pure-verify-of-digest", sig, digest.to_vec(), false)
+            };
+            let (oc, f) = check_negative(kind, vph, &sig2, &vm, &pk, true);
+            st.eval(&(si, li, ph, "digest-cross"), true, &oc);
+            if let Some(what) = f {
+                st.fail(Fail { check: "C06.ed25519".into(), signature: format!("C06/verify/{}/mode-cross-over-digest", oc), what, case: json!({"kind": "verify", "what": kind, "ph": vph, "sig": hx(&sig2), "msg": hx(&vm), "pk": hx(&pk), "must_reject": true}) });
             }
         }
         // combined form truncated below the signature length
